@@ -48,10 +48,12 @@ Qed.
 Lemma sstream_0 : sstream ts 0 = sig_stream ts 0.
 Proof. reflexivity. Qed.
 
-Lemma parse_complete g : derives ts g = true -> line_scoped ts g = true -> in_frag g = true -> tokdata_ok ts g = true ->
+Lemma parse_complete g : derives ts g = true -> line_scoped ts g = true -> excl g = true ->
   exists root e, lua_parse ts = Ok (root, e) /\ consumed ts e = true /\ denotes g (view root) = true.
 Proof.
-  intros Hd Hls Hfr Htd. unfold derives in Hd.
+  intros Hd Hls Hex. unfold derives in Hd. apply andb_true_iff in Hd. destruct Hd as [Hwf Hd].
+  apply andb_true_iff in Hwf. destruct Hwf as [Hfl Hlv].
+  pose proof (in_frag_of_excl g Hex Hfl) as Hfr. pose proof (tokdata_of_leaves_ok ts g Hlv) as Htd.
   destruct (g_chunk (2 * tsize g + 8) g (sig_stream ts 0)) as [[|? ?]|] eqn:Hg; try discriminate Hd.
   assert (HC : CTX ts g None).
   { split; [exact Hfr|]. split; [exact Htd|]. split; [|intros; reflexivity].
